@@ -877,10 +877,30 @@ def World.above (w : World) (fuel : Nat) (x target : Nat) : Bool :=
       | some q => w.above fuel q target
       | none => false
 
-/-- `SupervisionTree::link(a, p)` is possible on `p`'s side and closes no supervision cycle (repo fix: a link
-whose new supervisor is the child itself or one of its descendants is refused). -/
-def World.supOkFor (w : World) (a p : Nat) : Bool :=
-  w.supOkOf (some p) && !w.above (w.actors.length + 1) p a
+/-- `SupervisionTree::link(a, p)` is possible on `p`'s side. The code does NOT refuse a link that closes a
+supervision cycle (`p` is `a` or a descendant of `a`): see `World.closesCycle` and known finding F15. -/
+def World.supOkFor (w : World) (_a p : Nat) : Bool := w.supOkOf (some p)
+
+/-- Linking `a` under `p` would close a supervision cycle. -/
+def World.closesCycle (w : World) (a p : Nat) : Bool := w.above (w.actors.length + 1) p a
+
+/-- `a` is on a supervision cycle (its supervisor chain comes back to it). In that configuration the
+code's `terminate()` of the exiting `a` walks back to `a` and clears its supervisor before
+`notify_supervisor`, so `a`'s terminal event is NOT sent (F15, `c04.missing-terminal-in-cycle`); the
+model's `cleanup` does send it — the model is claimed to describe the code on acyclic runs only. -/
+def World.onCycle (w : World) (a : Nat) : Bool :=
+  match (w.get a).sup with
+  | some p => w.above (w.actors.length + 1) p a
+  | none => false
+
+/-- The harness op closes a supervision cycle (a public `link`, or the link a start is going to make). -/
+def Op.closesCycle (w : World) : Op → Bool
+  | .link a p => w.closesCycle a p
+  | .pollSpawn a =>
+    match (w.get a).wantSup with
+    | some p => (w.get a).sup != some p && w.closesCycle a p
+    | none => false
+  | _ => false
 
 def World.supOk (w : World) (a : Nat) : Bool :=
   match (w.get a).wantSup with
